@@ -11,6 +11,11 @@ import time
 import warnings
 
 
+if os.environ.get("VF_IMPORT_TIME_LOCK"):
+    from loky.backend import get_context as _gc
+    _IMPORT_TIME_LOCK = _gc("loky").Lock()
+
+
 def nap(x, d=0.2):
     time.sleep(d)
     return x
@@ -20,10 +25,27 @@ def crash(x):
     os.kill(os.getpid(), signal.SIGKILL)
 
 
+def own_trackers():
+    """Tracker processes that are children of this process."""
+    out = []
+    me = os.getpid()
+    for d in os.listdir("/proc"):
+        if d.isdigit():
+            try:
+                st = open(f"/proc/{d}/stat").read().rsplit(")", 1)[1].split()
+                if int(st[1]) == me and st[0] != "Z" and \
+                        b"resource_tracker" in open(f"/proc/{d}/cmdline", "rb").read():
+                    out.append(int(d))
+            except (OSError, IndexError, ValueError):
+                pass
+    return out
+
+
 def tracker_info(depth=0):
     from loky.backend import resource_tracker as rt
     t = rt._resource_tracker
-    return dict(pid=os.getpid(), tracker_pid=t._pid, tracker_fd=t._fd, depth=depth)
+    return dict(pid=os.getpid(), tracker_pid=t._pid, tracker_fd=t._fd, depth=depth,
+                own_trackers=own_trackers())
 
 
 def nested_info(levels):
